@@ -284,9 +284,59 @@ def b_recs(ctx):
     ctx.note("equations", len(seen))
 
 
+def live_start(P):
+    """variables whose start value may be read before the program assigns them (flat IR or structured code)"""
+    live, assigned = set(), set()
+
+    def pvars(p):
+        return {v for _, m in p for v, _ in m}
+
+    def cvars(c):
+        if c[0] == "atom":
+            return pvars(c[1]) | pvars(c[3])
+        if c[0] in ("and", "or"):
+            return cvars(c[1]) | cvars(c[2])
+        if c[0] == "not":
+            return cvars(c[1])
+        return set()
+
+    def walk(stmts, assigned):
+        for s_ in stmts:
+            if s_[0] == "assign":
+                reads = set().union(*[pvars(e) for _, e in s_[2]]) | cvars(s_[3])
+                if s_[3] != ("true",):
+                    reads.add(s_[4])
+                live.update(reads - assigned)
+                assigned = assigned | {s_[1]}
+            elif s_[0] == "draw":
+                reads = cvars(s_[3]) | ({s_[4]} if s_[3] != ("true",) else set())
+                live.update(reads - assigned)
+                assigned = assigned | {s_[1]}
+            elif s_[0] == "simul":
+                reads = set()
+                for it in s_[1]:
+                    if it[0] == "assign":
+                        reads |= set().union(*[pvars(e) for _, e in it[2]])
+                live.update(reads - assigned)
+                assigned = assigned | {it[1] for it in s_[1]}
+            elif s_[0] == "if":
+                outs = []
+                for c in s_[1]:
+                    live.update(cvars(c) - assigned)
+                for b in list(s_[2]) + [s_[3]]:
+                    outs.append(walk(b, set(assigned)))
+                assigned = set.intersection(*outs) if outs else assigned
+        return assigned
+    a = walk(P["init"], set())
+    live.update(cvars(P["guard"]) - a)
+    walk(P["body"], a)
+    return live
+
+
 def b_types(ctx):
     """C05: inferred finite types contain every value ever held (checked after every statement)"""
     user = set((ctx.it.get("types") or {}).keys()) | set(ctx.res.get("user_typed", []))
+    live = live_start(ctx.normP)
     k = 0
     for v, vals in ctx.res.get("typedefs", {}).items():
         if v in user or v not in ctx.normP["vars"]:
@@ -296,7 +346,7 @@ def b_types(ctx):
         k += 1
         for n in range(0, ctx.N + 1):
             ctx.claim(n, {"t": "supp", "pi": ctx.norm, "v": v, "vals": [F(x) for x in vals], "tag": v,
-                          "start": ctx.normP["s0"][v]})
+                          "start": ctx.normP["s0"][v], "exempt": v not in live})
     ctx.note("typed_vars", k)
 
 
